@@ -121,9 +121,14 @@ fn two_test(c: &TwoCase, obs: &mut Obs) -> CheckResult {
     let a = &c.a.cfg;
     // the identifiers the CLI assigns are pid + i; the statement covers non-zero identifiers
     let b_id = a.trace_id.wrapping_add(c.id_delta);
-    if a.protocol == Proto::Icmp && (b_id == 0 || a.trace_id == 0) {
-        obs.excluded("trace identifier 0");
+    // (responses carrying identifier 0 are accepted by every tracer by design; a tracer whose own
+    // identifier is 0 - the library default - must still ignore B's non-zero one)
+    if a.protocol == Proto::Icmp && b_id == 0 {
+        obs.excluded("second tracer with trace identifier 0");
         return Ok(());
+    }
+    if a.protocol == Proto::Icmp && a.trace_id == 0 {
+        obs.class("own-trace-id-0");
     }
     let mut b_cfg = a.clone();
     b_cfg.trace_id = b_id;
